@@ -571,35 +571,58 @@ impl<Ctx: OptCtx> LoweredToMir<'_, Ctx> {
 
 #[cfg(feature = "verif-hooks")]
 impl<Ctx: OptCtx> LoweredToMir<'_, Ctx> {
-    /// Verification hook (C05): layout and reference bit of every parameter
-    /// and return type of every function item.
-    pub fn verif_c05_mir_sigs(&self) -> Vec<crate::verif_hooks::c05::MirSig> {
+    /// Verification hook (C05): layout, reference bit and variant-field
+    /// offsets of every parameter and return type of every function item.
+    pub fn verif_c05_mir_sigs(
+        &mut self,
+    ) -> Vec<crate::verif_hooks::c05::MirSig> {
         use crate::verif_hooks::c05::{MirSig, TyFacts};
-        let pool = &self.type_info.ty_pool;
-        let rt = &self.runtime.rt;
-        let facts = |ty| TyFacts {
-            layout: pool.layout_of(ty, rt).map(|l| (l.size(), l.align())),
-            is_reference_type: pool.is_reference_type(ty, rt),
+        let mut runtime_functions = HashMap::new();
+        let mut ctx = lir::lower::LowerCtx {
+            runtime: &self.runtime.rt,
+            type_info: &mut self.type_info,
+            label_store: &mut self.label_store,
+            runtime_functions: &mut runtime_functions,
+            drops_to_generate: VecDeque::new(),
+            clones_to_generate: VecDeque::new(),
+            eq_to_generate: VecDeque::new(),
         };
-        self.ir
-            .items
-            .iter()
-            .filter_map(|item| {
-                let mir::ItemKind::Function { mir_signature, .. } = &item.ty
-                else {
-                    return None;
-                };
-                Some(MirSig {
-                    name: item.name.as_str().to_string(),
-                    params: mir_signature
-                        .parameter_types
-                        .iter()
-                        .map(|t| facts(*t))
-                        .collect(),
-                    ret: facts(mir_signature.return_type),
-                })
-            })
-            .collect()
+        let mut out = Vec::new();
+        for item in &self.ir.items {
+            let mir::ItemKind::Function { mir_signature, .. } = &item.ty
+            else {
+                continue;
+            };
+            let mut facts = |ty| {
+                let rt = ctx.runtime;
+                let layout = ctx
+                    .type_info
+                    .ty_pool
+                    .layout_of(ty, rt)
+                    .map(|l| (l.size(), l.align()));
+                let is_reference_type =
+                    ctx.type_info.ty_pool.is_reference_type(ty, rt);
+                let variant_offsets =
+                    lir::lower::verif_c05_variant_offsets(&mut ctx, item, ty);
+                TyFacts {
+                    layout,
+                    is_reference_type,
+                    variant_offsets,
+                }
+            };
+            let params = mir_signature
+                .parameter_types
+                .iter()
+                .map(|t| facts(*t))
+                .collect();
+            let ret = facts(mir_signature.return_type);
+            out.push(MirSig {
+                name: item.name.as_str().to_string(),
+                params,
+                ret,
+            });
+        }
+        out
     }
 }
 
